@@ -29,13 +29,14 @@ GNext ==
   \/ \E t \in T :
        \/ /\ RelayTakeAt(t, 1)
           /\ IF Head(out[t]).dest \in {ROOT, -1} THEN Stim("D:" \o Name(t) \o ">ROOT") ELSE Quiet
-       \/ /\ Recv(t)
+       \/ /\ Recv(t) /\ (failed'[t] => failed[t])
           /\ IF Head(inbox[t]).from = ROOT THEN Quiet
              ELSE Stim("D:" \o Name(Head(inbox[t]).from) \o ">" \o Name(t))
-       \/ RecvInval(t) /\ Stim("N:" \o Name(t))
+       \/ RecvInval(t) /\ (failed'[t] => failed[t]) /\ Stim("N:" \o Name(t))
        \/ RecvTerm(t) /\ Quiet
        \/ BuildCheck(t) /\ Quiet
-       \/ BuildSpawn(t) /\ Stim("G:" \o Name(t))              \* held at incr_checked
+       \* (launch failures of the shell and of services cannot be imposed on the harness: not generated)
+       \/ BuildSpawn(t) /\ st'[t].bpc = "script" /\ Stim("G:" \o Name(t))              \* held at incr_checked
        \/ ScriptRead(t) /\ Quiet
        \/ /\ ScriptFinish(t)
           /\ Stim("F:" \o Name(t) \o (IF st'[t].bpc = "record" THEN ":ok" ELSE ":fail"))
